@@ -372,6 +372,12 @@ func tknSweepInputs(v []byte) [][]byte {
 		for _, nv := range []uint64{0, 1, old - 2, old - 1, old + 1, old + 2, old + 7, old * 2, ^uint64(0), 1 << (8*f.w - 1)} {
 			set(f, nv)
 		}
+		if f.w == 2 && f.off+4 <= len(v) && (v[f.off] != v[f.off+2] || v[f.off+1] != v[f.off+3]) {
+			// exchange with the following 16-bit value (rows <-> cols of a matrix header)
+			b := append([]byte{}, v...)
+			b[f.off], b[f.off+1], b[f.off+2], b[f.off+3] = v[f.off+2], v[f.off+3], v[f.off], v[f.off+1]
+			out = append(out, b)
+		}
 	}
 	for _, e := range encl {
 		end := e.off + e.w + int(leGet(v, e))
@@ -441,6 +447,48 @@ func TestC10NestedSweep(t *testing.T) {
 						run(e, in)
 					}
 				}
+			}
+		}
+	}
+}
+
+// TestC10KeyFieldSweep: deterministic enumeration over the length-like 16-bit
+// fields of the CP-ABE key encodings (lengths, counts, matrix rows/cols):
+// boundary values and the exchange with the following 16-bit value.
+func TestC10KeyFieldSweep(t *testing.T) {
+	defer vlib.Done()
+	names := []string{"tkn20.PublicKey.UnmarshalBinary", "tkn20.PublicKey.UnmarshalBinary+Encrypt", "tkn20.SystemSecretKey.UnmarshalBinary",
+		"tkn20.SystemSecretKey.UnmarshalBinary+KeyGen", "tkn20.AttributeKey.UnmarshalBinary", "tkn20.AttributeKey.UnmarshalBinary+Decrypt"}
+	d := &directTB{t: t}
+	for ni, name := range names {
+		if ni%vlib.NShards != vlib.Shard {
+			continue
+		}
+		e := entryByName(name)
+		if e == nil || e.Valid == nil {
+			continue
+		}
+		v := e.Valid(0)
+		try := func(in []byte) {
+			d.replay = map[string]interface{}{"entry": e.Name, "input": fmt.Sprintf("%x", in)}
+			probe(d, e, "key-field-sweep", in)
+		}
+		for _, f := range leCandidates(v) {
+			if f.w != 2 {
+				continue
+			}
+			old := leGet(v, f)
+			for _, nv := range []uint64{0, 1, old - 1, old + 1, old * 2, 0xffff} {
+				if nv&0xffff != old {
+					b := append([]byte{}, v...)
+					lePut(b, f, nv)
+					try(b)
+				}
+			}
+			if f.off+4 <= len(v) && (v[f.off] != v[f.off+2] || v[f.off+1] != v[f.off+3]) {
+				b := append([]byte{}, v...)
+				b[f.off], b[f.off+1], b[f.off+2], b[f.off+3] = v[f.off+2], v[f.off+3], v[f.off], v[f.off+1]
+				try(b)
 			}
 		}
 	}
@@ -519,7 +567,7 @@ func mutatePolicy(t *rapid.T, s string) (string, string) {
 		n := rapid.SampledFrom([]int{2, 3, 1001, 20000}).Draw(t, "n")
 		return kind, strings.Repeat("not ", n) + s
 	case "many-clauses":
-		n := rapid.SampledFrom([]int{100, 2000, 40000}).Draw(t, "n")
+		n := rapid.SampledFrom([]int{30, 300, 1000}).Draw(t, "n") // "not" makes the parser quadratic in the number of attributes: keep it small
 		op := rapid.SampledFrom([]string{" and ", " or ", " and not ", " or not "}).Draw(t, "op")
 		var b strings.Builder
 		for i := 0; i < n; i++ {
